@@ -169,7 +169,7 @@ class CpuSlot:
     running at once (parallel development, parallel mutant testing) do not oversubscribe the cores."""
 
     def __enter__(self):
-        d = os.path.join(COQ, ".locks")
+        d = os.path.join(VERIF, "coq", ".locks")      # machine-wide also for runs on a private copy of the Coq tree (VERIF_COQ)
         os.makedirs(d, exist_ok=True)
         n = NCPU + 4
         start = random.randrange(n)
